@@ -468,7 +468,7 @@ ManagerDrop ==
 -----------------------------------------------------------------------------
 (* the next-state relation, grouped by who takes the step (Gen_Client.tla weighs the groups when it simulates) *)
 AppStart    == \E h \in Ops : FeAlloc(h)                                     \* the application starts an operation
-AppAbandon  == \E h \in Ops : fe[h].st # "idle" /\ FeAbandon(h)                \* ... or gives its future up
+AppAbandon  == Abandon /\ \E h \in Ops : fe[h].st # "idle" /\ FeAbandon(h)    \* ... or gives its future up
 FeNext      == \E h \in Ops : FeEnqueue(h) \/ FeObserve(h)                   \* its future makes progress
 StreamPoll  == \E h \in Subs : SubNext(h) \/ SubEnd(h)                       \* the application polls a stream
 StreamLeave == \E h \in Subs : SubUnsubStart(h) \/ SubDrop(h)                \* ... or gives it up
@@ -477,7 +477,7 @@ TaskNext    == StRecv \/ RtRecv \/ RtForward                                 \* 
 PeerNext    == \E m \in Texts : PeerSend(m)
 FaultNext   == \E f \in Faults : InjectFault(f)
 ShutNext    == StSendFails \/ RtRecvFails \/ StNoticeClosed \/ RtNoticeClosed \/ RtHandOver \/ StCloseFront \/ StHandOver \/ StEnd \/ WdRecv \/ ManagerDrop
-Next == AppStart \/ (Abandon /\ AppAbandon) \/ FeNext \/ StreamPoll \/ StreamLeave \/ StreamInt \/ TaskNext \/ PeerNext \/ FaultNext \/ ShutNext
+Next == AppStart \/ AppAbandon \/ FeNext \/ StreamPoll \/ StreamLeave \/ StreamInt \/ TaskNext \/ PeerNext \/ FaultNext \/ ShutNext
 
 Spec == Init /\ [][Next]_vars
 FairSpec == Spec /\ WF_vars(StRecv) /\ WF_vars(RtRecv) /\ WF_vars(RtHandOver) /\ WF_vars(StCloseFront) /\ WF_vars(StHandOver)
